@@ -16,8 +16,7 @@ import Generated.Params
     `planar_*_collection`, `bound_collection_union`, `wkb_collection`, `wkt_collection`,
     `geojson_collection`).  The bound pre-test and the dimension of a value are computed HERE from
     the case's input (Float twin of `Core.bound`, `SmartClip.dimensions`), never taken from the
-    harness.  No clause answers `skip` except for one stated input class (a malformed bound, see
-    `clipColl`). -/
+    harness.  No clause answers `skip`. -/
 namespace Driver.C20
 open Orb Orb.Proto Orb.Core
 
@@ -129,7 +128,7 @@ def kindTok (t : String) : String :=
   if t == "nil" then "nil" else if t.startsWith "n" then (t.drop 1).toString else t
 
 /-- `clip.Geometry` after the pre-test, by kind (clip/helpers.go:24-102) -/
-def clipWrap (k t : String) : String :=
+def clipWrap (k t : String) (argEmpty : Bool := false) : String :=
   match k with
   | "P" => t
   | "MP" => if t == "nMP" then "nil" else unwrapOne "MP" "P_" t
@@ -139,21 +138,23 @@ def clipWrap (k t : String) : String :=
   | "PG" => if t == "nPG" then "nil" else t
   | "MPG" => if t == "nMPG" then "nil" else unwrapOne "MPG" "PG_" t
   | "C" => if t == "nC" then "nil" else unwrapOne "C" "" t
-  | "B" => if boundTokEmpty t then "nil" else t
+  -- an EMPTY Bound argument ↦ nil before `clip.Bound` is asked (which would answer the box for it);
+  -- otherwise the intersection, nil when it is empty
+  | "B" => if argEmpty || boundTokEmpty t then "nil" else t
   | _ => t
 
 def emptyTok (k t : String) : Bool := t == "n" ++ k || t == k ++ "_0"
 
 /-- what the generic function must return, given the kind-specific function's raw result `t`;
     `none`: no typed clause for this entry / kind -/
-def relate (e k : String) (pre : Bool) (dim : Int) (t : String) : Option String :=
-  if e == "clip" then some (if !pre then "nil" else clipWrap k t)
+def relate (e k : String) (pre : Bool) (dim : Int) (t : String) (argEmpty : Bool := false) : Option String :=
+  if e == "clip" then some (if !pre then "nil" else clipWrap k t argEmpty)
   else if e == "smartclip" then
     if k == "R" || k == "PG" || k == "MPG" then
       -- smart.go:26-58: the multi-polygon that comes back is nil / its single polygon / itself; no pre-test
       some (if t == "nMPG" then "nil" else unwrapOne "MPG" "PG_" t)
     else if k == "C" && dim == 2 then none   -- member by member: the collection clause
-    else some (if !pre then "nil" else clipWrap k t)   -- Dimensions() != 2, or a bound: plain clip.Geometry
+    else some (if !pre then "nil" else clipWrap k t argEmpty)   -- Dimensions() != 2, or a bound: plain clip.Geometry
   else if e.startsWith "simplify." then
     -- simplify/helpers.go:14-61: points / bounds as they are, a nil multi-point ↦ nil, every other
     -- kind ↦ nil when the typed result has no members
@@ -178,16 +179,16 @@ def dropWrap (none0 : String) (ms : List String) : String :=
     bound fails; otherwise the members clipped one by one, nil results dropped, a single survivor
     returned itself, no survivor ↦ nil interface.
     "Combination of its members" also demands that a failed pre-test loses nothing, i.e. that every
-    member then clips to nil.  That can only be false when a member is a malformed `orb.Bound`
-    (Min > Max: `Bound.Union` ignores it, `Bound.Intersects` does not, and `clip.Bound` answers the
-    box for it): bound.go calls such a value "some malformed negative state", it is not one of the
-    degenerate members the quantifier lists, so exactly that situation — and nothing else — is `skip`. -/
+    member then clips to nil.  [Until the orb fix "clip.Geometry returns nil for an empty Bound argument"
+    this was false for a malformed `orb.Bound` member (Min > Max: `Bound.Union` ignores it,
+    `Bound.Intersects` does not, and `clip.Bound` answered the box for it) and that one situation was
+    `skip`; such a member clips to nil now, so the clause has no exception any more.] -/
 def clipColl (e generic : String) (pre malformed : Bool) (ms : List String) : String :=
   let comb := dropWrap "nil" ms
   let expected := if pre then comb else "nil"
   if generic != expected then s!"propfail collection-clip {e}"
   else if !pre && comb != "nil" then
-    (if malformed then s!"skip malformed-bound-member {e}" else s!"propfail collection-pretest-loses-members {e}")
+    s!"propfail collection-pretest-loses-members {e}" ++ (if malformed then " malformed-bound-member" else "")
   else if comb == "nil" then s!"ok coll-clip-none {e}"
   else if (ms.filter (· != "nil")).length == 1 then s!"ok coll-clip-single {e}"
   else s!"ok coll-clip {e}"
@@ -332,7 +333,7 @@ def handleCall (inp out : Toks) : String :=
       if typed == "panic" then s!"propfail panic-typed {e}" else
       let typedOk : Bool :=
         if typed == "-" then true else
-        match relate e k pre dim typed with
+        match relate e k pre dim typed (k == "B" && malformed) with
         | some want => generic == want
         | none => true
       if !typedOk then s!"propfail typed-disagrees {e}" else
